@@ -198,7 +198,7 @@ func TestC09(t *testing.T) {
 		cfg := model.DefaultCfg(mode)
 		cfg.NoDataTests, cfg.ManyFields = true, true
 		cfg.PCatchVary = 0.3 // caught failures are what a shared child context could carry from one field to the next
-		cfg.PPre = 0.08 // Preprocess wrappers (Parse only; the check is spec-free)
+		cfg.PPre = 0.08      // Preprocess wrappers (Parse only; the check is spec-free)
 		cfg.MaxFields = 5
 		cfg.PCatch, cfg.PVary, cfg.PAbsent, cfg.PJunk, cfg.PLight = 0.3, 0.3, 0.12, 0.06, 0.3
 		cfg.RootKinds = []string{model.KStruct, model.KStruct, model.KSlice, model.KPtr, model.KStruct}
